@@ -200,7 +200,7 @@ func (p *Program) contractFor(fn *ssa.Function) *Contract {
 func (p *Program) funcsWithProp(prop string) []*ssa.Function {
 	var out []*ssa.Function
 	for key, c := range p.Contracts {
-		if c.Trusted {
+		if c.Trusted || c.Oracle {
 			continue
 		}
 		has := false
@@ -224,7 +224,7 @@ func (p *Program) funcsWithProp(prop string) []*ssa.Function {
 func (p *Program) missingTargets(prop string) []string {
 	var out []string
 	for key, c := range p.Contracts {
-		if c.Trusted {
+		if c.Trusted || c.Oracle {
 			continue
 		}
 		for _, pr := range c.Props {
